@@ -184,6 +184,8 @@ class RM:
                     if caw == INF:
                         continue
                     for b in sids:
+                        if cut[w][b] == INF:
+                            continue
                         x = min(caw, cut[w][b])
                         if x < cut[a][b]:
                             cut[a][b] = x
